@@ -407,7 +407,7 @@ def _c21_extra(tier, seed, native_run):
 EXTRA_TIERS['C21'] = _c21_extra
 GAPS['C21'] = ['scipy.optimize itself (assumed: success is reported only when the functions/bounds it was given are satisfied within its tolerance, and for strictly convex problems it then returns the optimum): the success => feasible / optimal statement is decided end-to-end only in the BOUNDED tier',
                'the surrounding bookkeeping of ScipyOptimizeDriver.run (design-variable bounds, _con_idx layout across several constraints, result unpacking, final model update): bounded tier only',
-               '_objfunc body (that it runs the model at x and refreshes _con_cache/_con_cache_x): assumed contract',
+               '_objfunc is proved on its own (order of events, own copy of x in _con_cache_x, cache = what get_constraint_values returned); _con_val_func / _gradfunc still use the ASSUMED form of exactly those postconditions at their call sites; what the model run and get_constraint_values do is assumed',
                '_congradfunc (sign of new-style constraint jacobians: an upper-only NonlinearConstraint gets a negated jacobian today; the optimizer then FAILS rather than reporting success, so it is outside this property and not repaired)',
                'differential_evolution / basinhopping / dual_annealing / shgo branches; pyOptSparse driver']
 
